@@ -47,7 +47,7 @@ func concOps(bin bool, key, other string, tag string) []wire.Op {
 		{Kind: "append", Key: key, Val: "+" + tag},
 		{Kind: "prepend", Key: key, Val: tag + "+"},
 		{Kind: "delete", Key: key},
-		{Kind: "touch", Key: key, TTL: 0},
+		{Kind: "touch", Key: key, TTL: touchTTL(tag)},
 		{Kind: "get", Key: key},
 		{Kind: "mget", Keys: []string{key, other}, Quiet: []bool{bin, false}},
 	}
@@ -55,6 +55,15 @@ func concOps(bin bool, key, other string, tag string) []wire.Op {
 		ops = append(ops, wire.Op{Kind: "gat", Key: key, TTL: 0})
 	}
 	return ops
+}
+
+// touchTTL: the two connections ask for different lifetimes; connection 1's is an absolute time
+// in the past (30 days + 1 s), i.e. "expire now".
+func touchTTL(tag string) uint32 {
+	if tag == "1" {
+		return 30*24*3600 + 1
+	}
+	return 100
 }
 
 type namedInit struct {
